@@ -101,7 +101,7 @@ class MeasurementOutcomeDistribution:
             raise ValueError("There exist duplicate indices in the active qubit list")
 
         for key in self.distribution_dict:
-            new_key = "".join(str(key[i]) for i in active_qubits)
+            new_key = tuple(key[i] for i in active_qubits)
             new_counts[new_key] = self.distribution_dict[key] + new_counts.get(
                 new_key, 0
             )
